@@ -22,6 +22,8 @@ pub struct GenOpts {
     pub angular_bias: bool,
     /// keep motion-check resolution coarse enough that runs stay cheap
     pub min_frac: f64,
+    /// worst-case number of validity queries a run may need (0 = default 4e5)
+    pub query_budget: f64,
 }
 
 fn unit_quat(rng: &mut Xo) -> [f64; 4] {
@@ -472,6 +474,10 @@ pub fn gen_solve(rng: &mut Xo, clock: &mut ClockSpec, iters: u64) -> (CallSpec, 
 /// Largest iteration budget <= `want` whose worst-case number of validity queries stays
 /// affordable (runs must stay cheap: many short runs beat a few long ones).
 pub fn affordable_iters(p: &PlannerSpec, l: f64, ext: f64, want: u64) -> u64 {
+    affordable_iters_b(p, l, ext, want, 4e5)
+}
+
+pub fn affordable_iters_b(p: &PlannerSpec, l: f64, ext: f64, want: u64, budget: f64) -> u64 {
     let dmax = 2.0 * ext;
     let q = |len: f64| -> f64 {
         if l > 0.0 {
@@ -488,7 +494,7 @@ pub fn affordable_iters(p: &PlannerSpec, l: f64, ext: f64, want: u64) -> u64 {
         }
     };
     let mut n = want.max(1);
-    while n > 1 && cost(n as f64) > 4e5 {
+    while n > 1 && cost(n as f64) > budget {
         n = (n * 3 / 4).max(1);
     }
     n
@@ -509,7 +515,7 @@ pub fn base(rng: &mut Xo, prop: &str, seed: u64, index: u64, o: &GenOpts) -> Sce
     let kind = o.planner.unwrap_or_else(|| *rng.pick(&PlannerKind::ALL));
     let planner = gen_planner(rng, kind, ext);
     let mut clock = gen_clock(rng);
-    let iters = affordable_iters(&planner, geo.lvs(), ext, 1 + rng.below(o.max_iters.max(1)));
+    let iters = affordable_iters_b(&planner, geo.lvs(), ext, 1 + rng.below(o.max_iters.max(1)), if o.query_budget > 0.0 { o.query_budget } else { 4e5 });
     let mut calls = vec![CallSpec::Setup { problem: 0 }];
     let mut params = BTreeMap::new();
     if kind == PlannerKind::PRM {
